@@ -1,30 +1,53 @@
 package libp2p
 
 import (
+	"context"
 	"crypto/ecdsa"
 	"encoding/json"
+	"fmt"
 	"io"
 	"math/big"
 	"os"
 	"path/filepath"
+	"sync"
 	"testing"
+	"time"
 
 	"github.com/ethereum/go-ethereum/accounts/keystore"
+	"github.com/ethereum/go-ethereum/common"
 	"github.com/ethereum/go-ethereum/crypto"
-	"github.com/primevprotocol/mev-commit/pkg/keysigner"
 	libp2pcrypto "github.com/libp2p/go-libp2p/core/crypto"
 	"github.com/libp2p/go-libp2p/core/peer"
+	"github.com/primevprotocol/mev-commit/pkg/keysigner"
 	mockkeysigner "github.com/primevprotocol/mev-commit/pkg/keysigner/mock"
 	"github.com/primevprotocol/mev-commit/pkg/p2p"
+	"github.com/primevprotocol/mev-commit/pkg/p2p/libp2p/internal/handshake"
+	"github.com/primevprotocol/mev-commit/pkg/signer"
+	"github.com/primevprotocol/mev-commit/pkg/signer/preconfsigner"
 	"github.com/primevprotocol/mev-commit/pkg/util"
+	"google.golang.org/protobuf/proto"
 )
 
 type c18In struct {
 	D    string // private scalar, decimal
 	Full bool   // also start a real Service with this key
-	// which key signer feeds libp2p.New in the Full run: 0 = mock holding the key, 1 = the repository's
-	// private-key-file signer, 2 = the repository's keystore signer (both load the key from disk)
+	// the key signers observed for every case are the mock holding the key (0) and the repository's private-key-file
+	// signer (1, key loaded from disk); Signer = 2 adds the repository's keystore signer (slow: scrypt).  Signer also
+	// says which of them feeds libp2p.New in the Full run.
 	Signer int
+}
+
+type c18Signer struct {
+	Kind   int
+	Err    string // setting the signer up failed (then nothing else is filled in)
+	Priv   string // GetPrivateKey().D, decimal
+	Addr   []byte // GetAddress()
+	Tr     []byte // GetEthAddressFromPeerID of the identity built from GetPrivateKey() the way libp2p.New does; nil: none
+	Rec    []byte // pkg/signer Verify on SignHash(Keccak256(role+token)) (what handshake.createSignature signs); nil: failed
+	Hs     []byte // address a real peer's handshake.Service.Handle enrolled this node under; nil: refused
+	Bid    []byte // preconfsigner.VerifyBid(ConstructSignedBid(...)); nil: failed
+	Commit []byte // preconfsigner.VerifyPreConfirmation(ConstructPreConfirmation(bid)); nil: failed
+	Note   string
 }
 
 type c18Obs struct {
@@ -33,9 +56,10 @@ type c18Obs struct {
 	Comp        []byte // compressed public key the transport library derives
 	Pid         []byte // peer id bytes derived by the transport library
 	X, Y        string // crypto.DecompressPubkey(Comp)
+	QX, QY      string // ScalarBaseMult(d) by go-ethereum's curve
 	AddrPid     []byte // GetEthAddressFromPeerID(Pid); nil on error
-	AddrSign    []byte // crypto.PubkeyToAddress of the go-ethereum key (what signatures recover to)
-	AddrRecovered []byte // address recovered from a signature the key signer made (what peers see in handshakes)
+	AddrPub     []byte // crypto.PubkeyToAddress of (QX, QY)
+	Signers     []c18Signer
 	StartOK     bool   // libp2p.New succeeded (Full only; true otherwise)
 	HostPid     []byte // HostID() of the started service (Full only)
 	HostAddr    []byte // GetEthAddressFromPeerID(HostID()) (Full only)
@@ -49,11 +73,148 @@ func c18Key(d *big.Int) *ecdsa.PrivateKey {
 	return priv
 }
 
-func c18Run(in c18In) (obs c18Obs) {
+// an in-memory p2p.Stream pair whose reads honour the context (a refused handshake must not hang the other side)
+type c18Stream struct {
+	in, out chan []byte
+}
+
+func (s *c18Stream) ReadMsg(ctx context.Context, m proto.Message) error {
+	select {
+	case b := <-s.in:
+		return proto.Unmarshal(b, m)
+	case <-ctx.Done():
+		return ctx.Err()
+	}
+}
+func (s *c18Stream) WriteMsg(ctx context.Context, m proto.Message) error {
+	b, err := proto.Marshal(m)
+	if err != nil {
+		return err
+	}
+	select {
+	case s.out <- b:
+		return nil
+	case <-ctx.Done():
+		return ctx.Err()
+	}
+}
+func (s *c18Stream) Close() error { return nil }
+func (s *c18Stream) Reset() error { return nil }
+
+type c18Reg struct{}
+
+func (c18Reg) CheckProviderRegistered(context.Context, common.Address) bool { return true }
+
+var c18PeerOnce sync.Once
+var c18PeerKey *ecdsa.PrivateKey
+
+// c18Handshake runs the node's side (handshake.Service built over ks exactly as libp2p.New builds it: real signer,
+// real GetEthAddressFromPeerID) against a real peer; nodePid is the node's transport identity.  Returns the address
+// the PEER enrolled the node under (its verifyReq: signature recovery + address-binding check), nil if it refused.
+func c18Handshake(ks keysigner.KeySigner, nodePid peer.ID, slow int) ([]byte, string) {
+	c18PeerOnce.Do(func() { c18PeerKey = c18Key(big.NewInt(0x5eed5eed)) })
+	pk, err := libp2pcrypto.UnmarshalSecp256k1PrivateKey(util.PadKeyTo32Bytes(c18PeerKey.D))
+	if err != nil {
+		return nil, "peer key: " + err.Error()
+	}
+	peerPid, err := peer.IDFromPrivateKey(pk)
+	if err != nil {
+		return nil, "peer id: " + err.Error()
+	}
+	node, err := handshake.New(ks, p2p.PeerTypeBidder, "test", signer.New(), c18Reg{}, GetEthAddressFromPeerID)
+	if err != nil {
+		return nil, "node handshake service: " + err.Error()
+	}
+	other, err := handshake.New(mockkeysigner.NewMockKeySigner(c18PeerKey, crypto.PubkeyToAddress(c18PeerKey.PublicKey)),
+		p2p.PeerTypeProvider, "test", signer.New(), c18Reg{}, GetEthAddressFromPeerID)
+	if err != nil {
+		return nil, "peer handshake service: " + err.Error()
+	}
+	ctx, cancel := context.WithTimeout(context.Background(), time.Duration(slow)*20*time.Second)
+	defer cancel()
+	ab, ba := make(chan []byte, 8), make(chan []byte, 8)
+	nodeStream, peerStream := &c18Stream{in: ba, out: ab}, &c18Stream{in: ab, out: ba}
+	type res struct {
+		p   *p2p.Peer
+		err error
+	}
+	nodeRes, peerRes := make(chan res, 1), make(chan res, 1)
+	go func() {
+		p, err := node.Handshake(ctx, peerPid, nodeStream)
+		if err != nil {
+			cancel()
+		}
+		nodeRes <- res{p, err}
+	}()
+	go func() {
+		p, err := other.Handle(ctx, peerStream, nodePid)
+		if err != nil {
+			cancel()
+		}
+		peerRes <- res{p, err}
+	}()
+	pr, nr := <-peerRes, <-nodeRes
+	if pr.err != nil {
+		return nil, "peer refused: " + pr.err.Error()
+	}
+	note := ""
+	if nr.err != nil {
+		note = "node side: " + nr.err.Error()
+	}
+	return pr.p.EthAddress.Bytes(), note
+}
+
+func c18ObserveSigner(kind int, ks keysigner.KeySigner, slow int) (so c18Signer) {
+	so.Kind = kind
+	so.Addr = ks.GetAddress().Bytes()
+	so.Priv = "0"
+	var nodePid peer.ID
+	// the transport identity, built the way libp2p.New builds it
+	if pk, err := ks.GetPrivateKey(); err == nil && pk != nil && pk.D != nil {
+		so.Priv = pk.D.String()
+		if k, err := libp2pcrypto.UnmarshalSecp256k1PrivateKey(util.PadKeyTo32Bytes(pk.D)); err == nil {
+			if pid, err := peer.IDFromPrivateKey(k); err == nil {
+				nodePid = pid
+				if a, err := GetEthAddressFromPeerID(pid); err == nil {
+					so.Tr = a.Bytes()
+				}
+			}
+		}
+		ks.ZeroPrivateKey(pk)
+	}
+	// the handshake request signature: handshake.createSignature signs Keccak256(peerType + passcode) with SignHash;
+	// the peer recovers with pkg/signer Verify
+	data := []byte(p2p.PeerTypeBidder.String() + "test")
+	if sig, err := ks.SignHash(crypto.Keccak256Hash(data).Bytes()); err == nil {
+		if ok, a, err := signer.New().Verify(sig, data); err == nil && ok {
+			so.Rec = a.Bytes()
+		}
+	}
+	// ... and the same through the real handshake services
+	if nodePid != "" {
+		so.Hs, so.Note = c18Handshake(ks, nodePid, slow)
+	}
+	// bids and commitments
+	ps := preconfsigner.NewSigner(ks)
+	if bid, err := ps.ConstructSignedBid("0xc18c18c18c18c18c18c18c18c18c18c18c18c18c18c18c18c18c18c18c18c18c1", "1000000", 7, 10, 20); err == nil {
+		if a, err := ps.VerifyBid(bid); err == nil && a != nil {
+			so.Bid = a.Bytes()
+		}
+		if pc, err := ps.ConstructPreConfirmation(bid); err == nil {
+			if a, err := ps.VerifyPreConfirmation(pc); err == nil && a != nil {
+				so.Commit = a.Bytes()
+			}
+		}
+	}
+	return so
+}
+
+func c18Run(in c18In, slow int) (obs c18Obs) {
 	d, _ := new(big.Int).SetString(in.D, 10)
 	priv := c18Key(d)
 	obs.StartOK = true
-	obs.AddrSign = crypto.PubkeyToAddress(priv.PublicKey).Bytes()
+	obs.QX, obs.QY = priv.PublicKey.X.String(), priv.PublicKey.Y.String()
+	obs.AddrPub = crypto.PubkeyToAddress(priv.PublicKey).Bytes()
 	obs.Pad = util.PadKeyTo32Bytes(priv.D)
 	k, err := libp2pcrypto.UnmarshalSecp256k1PrivateKey(obs.Pad)
 	if err == nil {
@@ -73,54 +234,49 @@ func c18Run(in c18In) (obs c18Obs) {
 	if obs.X == "" {
 		obs.X, obs.Y = "0", "0"
 	}
-	obs.AddrRecovered = obs.AddrSign
+	// the key signers that are given this key
+	kinds := []int{0, 1}
+	if in.Signer == 2 {
+		kinds = append(kinds, 2)
+	}
+	sgn := map[int]keysigner.KeySigner{}
+	dir, err := os.MkdirTemp("", "c18ks")
+	if err != nil {
+		obs.StartOK = false
+		return obs
+	}
+	defer os.RemoveAll(dir)
+	for _, kind := range kinds {
+		var ks keysigner.KeySigner
+		var serr error
+		switch kind {
+		case 0:
+			// every key signer gets its own copy of the key (the keystore signer wipes what it hands out)
+			ks = mockkeysigner.NewMockKeySigner(c18Key(d), crypto.PubkeyToAddress(priv.PublicKey))
+		case 1:
+			path := filepath.Join(dir, "key")
+			if serr = crypto.SaveECDSA(path, priv); serr == nil {
+				ks, serr = keysigner.NewPrivateKeySigner(path)
+			}
+		case 2:
+			sdir := filepath.Join(dir, "keystore")
+			store := keystore.NewKeyStore(sdir, keystore.LightScryptN, keystore.LightScryptP)
+			if _, serr = store.ImportECDSA(c18Key(d), "pw"); serr == nil {
+				ks, serr = keysigner.NewKeystoreSigner(sdir, "pw")
+			}
+		}
+		if serr != nil || ks == nil {
+			obs.Signers = append(obs.Signers, c18Signer{Kind: kind, Err: fmt.Sprint(serr), Priv: "0"})
+			continue
+		}
+		sgn[kind] = ks
+		obs.Signers = append(obs.Signers, c18ObserveSigner(kind, ks, slow))
+	}
 	if in.Full {
-		var ks keysigner.KeySigner = mockkeysigner.NewMockKeySigner(priv, crypto.PubkeyToAddress(priv.PublicKey))
-		if in.Signer != 0 {
-			dir, err := os.MkdirTemp("", "c18ks")
-			if err != nil {
-				obs.StartOK = false
-				return obs
-			}
-			defer os.RemoveAll(dir)
-			switch in.Signer {
-			case 1:
-				path := filepath.Join(dir, "key")
-				if err := crypto.SaveECDSA(path, priv); err != nil {
-					obs.StartOK = false
-					return obs
-				}
-				pks, err := keysigner.NewPrivateKeySigner(path)
-				if err != nil {
-					obs.StartOK = false
-					return obs
-				}
-				ks = pks
-			case 2:
-				store := keystore.NewKeyStore(dir, keystore.LightScryptN, keystore.LightScryptP)
-				if _, err := store.ImportECDSA(priv, "pw"); err != nil {
-					obs.StartOK = false
-					return obs
-				}
-				kss, err := keysigner.NewKeystoreSigner(dir, "pw")
-				if err != nil {
-					obs.StartOK = false
-					return obs
-				}
-				ks = kss
-			}
-			// what the rest of the node signs with, and what it says its address is
-			obs.AddrSign = ks.GetAddress().Bytes()
-			h := crypto.Keccak256([]byte("c18 probe"))
-			if sig, err := ks.SignHash(h); err == nil {
-				if pub, err := crypto.SigToPub(h, sig); err == nil {
-					obs.AddrRecovered = crypto.PubkeyToAddress(*pub).Bytes()
-				} else {
-					obs.AddrRecovered = nil
-				}
-			} else {
-				obs.AddrRecovered = nil
-			}
+		ks := sgn[in.Signer]
+		if ks == nil {
+			obs.StartOK = false
+			return obs
 		}
 		svc, err := New(&Options{
 			KeySigner:  ks,
@@ -147,15 +303,29 @@ func TestVerifC18(t *testing.T) {
 	e := vfOpen(t, 1)
 	defer e.Close()
 	run := func(class string, in c18In) {
-		obs := c18Run(in)
-		d, _ := new(big.Int).SetString(in.D, 10)
-		x, _ := new(big.Int).SetString(obs.X, 10)
-		y, _ := new(big.Int).SetString(obs.Y, 10)
+		if in.Signer < 0 || in.Signer > 2 {
+			in.Signer = 0
+		}
+		obs := c18Run(in, e.Slow)
+		big10 := func(s string) *big.Int {
+			v, ok := new(big.Int).SetString(s, 10)
+			if !ok {
+				return new(big.Int)
+			}
+			return v
+		}
+		var sg []string
+		for _, so := range obs.Signers {
+			sg = append(sg, coqRecord("s_kind", coqN(uint64(so.Kind)), "s_priv", coqBigN(big10(so.Priv)), "s_addr", coqBytes(so.Addr),
+				"s_tr", coqOptBytes(so.Tr), "s_rec", coqOptBytes(so.Rec), "s_hs", coqOptBytes(so.Hs), "s_bid", coqOptBytes(so.Bid),
+				"s_commit", coqOptBytes(so.Commit)))
+		}
 		e.Emit(class, in, obs, func(id int) string {
-			return coqRecord("id", coqN(uint64(id)), "d", coqBigN(d), "pad_obs", coqBytes(obs.Pad),
+			return coqRecord("id", coqN(uint64(id)), "d", coqBigN(big10(in.D)), "pad_obs", coqBytes(obs.Pad),
 				"unmarshal_ok", coqBool(obs.UnmarshalOK), "comp", coqBytes(obs.Comp), "pid_obs", coqBytes(obs.Pid),
-				"px", coqBigN(x), "py", coqBigN(y), "addr_pid_obs", coqOptBytes(obs.AddrPid),
-				"addr_sign_obs", coqBytes(obs.AddrSign), "addr_recovered", coqBytes(obs.AddrRecovered), "full", coqBool(in.Full), "start_ok", coqBool(obs.StartOK),
+				"px", coqBigN(big10(obs.X)), "py", coqBigN(big10(obs.Y)), "qx", coqBigN(big10(obs.QX)), "qy", coqBigN(big10(obs.QY)),
+				"addr_pid_obs", coqOptBytes(obs.AddrPid), "addr_pub_obs", coqBytes(obs.AddrPub), "signers", coqList(sg),
+				"full", coqBool(in.Full), "full_signer", coqN(uint64(in.Signer)), "start_ok", coqBool(obs.StartOK),
 				"host_pid", coqBytes(obs.HostPid), "host_addr", coqOptBytes(obs.HostAddr))
 		})
 	}
@@ -197,6 +367,10 @@ func TestVerifC18(t *testing.T) {
 			}
 			class := "leading-zeros"
 			run(class, c18In{D: d.String(), Full: j == 0})
+			// the keystore signer's key hand-out and signatures without starting a service (other counts than below)
+			if j == 1 && (e.Tier == "thorough" || k%4 == 3 || k == 30) {
+				run("signer-keystore-nostart", c18In{D: d.String(), Signer: 2})
+			}
 			// the same key through the repository's own key signers (loaded from disk), every 4th count in quick
 			if j == 0 && (e.Tier == "thorough" || k%4 == 1 || k == 31) {
 				run("signer-file", c18In{D: d.String(), Full: true, Signer: 1})
